@@ -155,142 +155,180 @@ def run(check, an: Analysis):
                    % n_wait, analysed=n_wait)
 
     # ---- A ------------------------------------------------------------------
-    # roles discovered from the code
-    add_calls = [n for n in ast.walk(fn.node) if isinstance(n, ast.Call)
-                 and isinstance(n.func, ast.Attribute) and n.func.attr == '_add_subscriber']
-    if len(add_calls) != 1 or len(add_calls[0].args) != 2:
-        raise AnalysisError('Pipe.transfer: _add_subscriber(identifier, limit) call not found')
-    limit = ast.unparse(add_calls[0].args[1])
-    params = [a.arg for a in fn.node.args.args]
-    if len(params) < 2:
-        raise AnalysisError('Pipe.transfer: parameters changed')
-    total = params[1]
+    _check_formulas(check, an, transfer, throttle, paths)
+    check.stats.update(an.stats())
+
+
+def _accumulator(fn):
+    """the local that accumulates the transferred volume (`acc += ...` inside the loop)"""
     loops = [n for n in ast.walk(fn.node) if isinstance(n, ast.While)]
     augs = [n for loop in loops for n in ast.walk(loop) if isinstance(n, ast.AugAssign)
             and isinstance(n.op, ast.Add) and isinstance(n.target, ast.Name)]
-    if len(augs) != 1:
-        raise AnalysisError('Pipe.transfer: accounting statement (acc += ...) not found')
-    acc = augs[0].target.id
+    return augs[0].target.id if len(augs) == 1 else None
+
+
+def _clock_symbols(expr, path, index, fn):
+    """replace direct clock reads by NOW, return (expr, clock local names)"""
+    import copy
+
+    class Sub(ast.NodeTransformer):
+        def visit_Attribute(self, node):
+            if isinstance(node.ctx, ast.Load) and rules.is_current_time(node, fn):
+                return ast.Name(id='NOW_', ctx=ast.Load())
+            return self.generic_visit(node)
+    tree = Sub().visit(copy.deepcopy(expr))
+    names = set()
+    for node in ast.walk(tree):
+        if isinstance(node, ast.Name):
+            if node.id == 'NOW_':
+                names.add('NOW_')
+            else:
+                found = rules.reaching_store(path, index, node.id)
+                if found is not None and found[1].get('value') is not None and \
+                        rules.is_current_time(found[1]['value'], found[1].fn):
+                    names.add(node.id)
+    return tree, names
+
+
+def _check_formulas(check, an: Analysis, transfer, throttle, paths):
+    fn = transfer.fn
+    params = [a.arg for a in fn.node.args.args]
+    total = params[1]
+    acc = _accumulator(fn)
     scale = 'self._throughput_scale'
-    suspends = [n for n in ast.walk(fn.node) if isinstance(n, ast.Call)
-                and ast.unparse(n.func) == 'suspend']
-    if not suspends:
-        raise AnalysisError('Pipe.transfer: suspend(...) call not found')
-    for call in suspends:
-        delay_kw = [kw.value for kw in call.keywords if kw.arg == 'delay']
-        where = '%s:%d' % (fn.module.relpath, call.lineno)
-        if not delay_kw:
-            check.instance('A', 'transfer:planned-delay', False, where,
-                           'suspend() is not given a relative delay')
+    if acc is None:
+        check.instance('A', 'transfer:accounting', False, where_fn(fn),
+                       'no accumulating `x += elapsed * rate` statement in the window loop')
+        return
+    verdict_delay, n_delay, bad_delay = True, 0, None
+    verdict_acc, n_acc, bad_acc = True, 0, None
+    verdict_order, bad_order = True, None
+    for path in paths:
+        add = [i for i, e in enumerate(path.events) if is_call_to(e, '_add_subscriber')
+               and e.kind != 'leave' and e.depth == 0 and isinstance(e.node, ast.Call)
+               and len(e.node.args) == 2]
+        if not add:
             continue
-        got = _expand(delay_kw[0], fn)
-        want = '(%s - %s) / (%s * %s)' % (total, acc, limit, scale)
-        check.instance('A', 'transfer:planned-delay', equal_algebra(got, want), where,
-                       'delay == (total - transferred) / (limit * scale): %s'
-                       % ast.unparse(got))
-    # accounting: acc += elapsed * limit * scale with the rate captured before the wait
-    aug = augs[0]
-    clock_locals = [name for name in {n.id for n in ast.walk(aug.value)
-                                      if isinstance(n, ast.Name)}
-                    if any(v is not None and rules.is_current_time(v, fn)
-                           for v in rules.local_values(fn, name))]
-    got = _expand(aug.value, fn, keep=clock_locals)
-    where = '%s:%d' % (fn.module.relpath, aug.lineno)
-    ok_form = False
-    order = None
-    if len(clock_locals) == 2:
-        for start, end in (clock_locals, clock_locals[::-1]):
-            want = '(%s - %s) * %s * %s' % (end, start, limit, scale)
-            if equal_algebra(got, want):
-                ok_form = True
-                order = (start, end)
-    check.instance('A', 'transfer:accounting', ok_form, where,
-                   'transferred += (window_end - window_start) * limit * scale: %s'
-                   % ast.unparse(got))
-    if order is not None:
-        start, end = order
-        bad = None
-        n_iter = 0
-        for path in paths:
-            for index, event in enumerate(path.events):
-                if event.kind == 'store' and event['path'] == acc and event['aug'] is not None:
-                    n_iter += 1
-                    # walk back within this iteration
-                    seen_end = seen_wait = seen_start = seen_rate = False
-                    for before in reversed(path.events[:index]):
-                        if before.kind == 'store' and before['path'] == acc and \
-                                before['aug'] is not None:
-                            break
-                        if before.kind == 'store' and before['path'] == end \
-                                and not seen_wait:
-                            seen_end = True
-                        elif before.kind == 'susp' and before.depth == 0 and \
-                                is_suspension(before):
-                            seen_wait = True
-                        elif before.kind == 'store' and before['path'] == start \
-                                and seen_wait:
-                            seen_start = True
-                        elif before.kind == 'store' and before.depth == 0 and seen_wait \
-                                and before['value'] is not None and \
-                                '_throughput_scale' in ast.unparse(before['value']):
-                            seen_rate = True
-                    if not (seen_end and seen_wait and seen_start and seen_rate):
-                        bad = bad or (path, index)
-        check.instance('A', 'transfer:window-order', bad is None and n_iter > 0, where,
-                       'per window: start time and rate are read before the wait, end time '
-                       'after it (%d windows on %d paths)' % (n_iter, len(paths)),
-                       path=rules.path_lines(*bad) if bad else None, analysed=n_iter)
+        limit = rules.value_text(path, add[0], path.events[add[0]].node.args[1], keep=(acc,))
+        for index, event in enumerate(path.events):
+            if event.kind == 'call' and is_call_to(event, 'suspend') and event.depth == 0:
+                kw = [k.value for k in event.node.keywords if k.arg == 'delay']
+                n_delay += 1
+                got = rules.value_text(path, index, kw[0], keep=(acc,)) if kw else None
+                want = '(%s - %s) / ((%s) * %s)' % (total, acc, limit, scale)
+                if got is None or not equal_algebra(got, want):
+                    verdict_delay = False
+                    bad_delay = bad_delay or (path, index, got)
+            elif event.kind == 'store' and event['path'] == acc and \
+                    event['aug'] is not None and event.depth == 0:
+                n_acc += 1
+                expanded = rules.value_expr(path, index, event['value'], keep=(acc,))
+                tree, clocks = _clock_symbols(expanded, path, index, fn)
+                good = False
+                pair = None
+                for end in sorted(clocks):
+                    for start in sorted(clocks):
+                        if end != start and equal_algebra(
+                                ast.unparse(tree), '(%s - %s) * (%s) * %s' % (
+                                    end, start, limit, scale)):
+                            good, pair = True, (start, end)
+                if not good:
+                    verdict_acc = False
+                    bad_acc = bad_acc or (path, index, ast.unparse(tree))
+                    continue
+                # window order: start time and rate captured before the wait, end after
+                waits = [i for i in range(index - 1, -1, -1)
+                         if path.events[i].kind == 'susp' and path.events[i].depth == 0
+                         and is_suspension(path.events[i])]
+                prev_acc = [i for i in range(index - 1, -1, -1)
+                            if path.events[i].kind == 'store'
+                            and path.events[i]['path'] == acc
+                            and path.events[i]['aug'] is not None]
+                lo = prev_acc[0] if prev_acc else -1
+                waits = [w for w in waits if w > lo]
+                if not waits:
+                    verdict_order = False
+                    bad_order = bad_order or (path, index)
+                    continue
+                wait = waits[-1]  # first wait of this window
+                start, end = pair
+                s_pos = rules.reaching_store(path, index, start)
+                e_pos = index if end == 'NOW_' else rules.reaching_store(path, index, end)[0]
+                rate_ok = scale not in ast.unparse(event['value'])
+                for node in ast.walk(event['value']):
+                    if isinstance(node, ast.Name) and node.id not in (acc, start, end):
+                        found = rules.reaching_store(path, index, node.id)
+                        if found is not None and scale in rules.value_text(
+                                path, index, node, keep=(acc,)):
+                            rate_ok &= lo < found[0] < wait
+                ok = s_pos is not None and lo < s_pos[0] < wait and e_pos > waits[0] \
+                    and rate_ok
+                if not ok:
+                    verdict_order = False
+                    bad_order = bad_order or (path, index)
+    check.instance('A', 'transfer:planned-delay', verdict_delay and n_delay > 0, where_fn(fn),
+                   'delay == (total - transferred) / (limit * scale) at every suspend '
+                   '(%d sites on paths)%s' % (n_delay, '' if verdict_delay else
+                                              ': found ' + str(bad_delay[2])),
+                   path=rules.path_lines(*bad_delay[:2]) if bad_delay else None,
+                   analysed=n_delay)
+    check.instance('A', 'transfer:accounting', verdict_acc and n_acc > 0, where_fn(fn),
+                   'transferred += (end - start) * limit * scale (%d windows on paths)%s' % (
+                       n_acc, '' if verdict_acc else ': found ' + str(bad_acc[2])),
+                   path=rules.path_lines(*bad_acc[:2]) if bad_acc else None, analysed=n_acc)
+    check.instance('A', 'transfer:window-order', verdict_order and n_acc > 0, where_fn(fn),
+                   'per window: start time and rate are read before the wait, end time '
+                   'after it', path=rules.path_lines(*bad_order) if bad_order else None,
+                   analysed=n_acc)
     # scale formula
-    tfn = throttle.fn
+    from .c19 import inequality
+    overload = inequality(ast.parse('sum(self._subscriptions.values()) > self.throughput',
+                                    mode='eval').body)
+    kinds = {}
     for path in an.paths(throttle):
         for index, event in enumerate(path.events):
-            if event.kind == 'store' and event['path'] == 'self._throughput_scale':
-                value = _expand(event['value'], tfn)
-                guard = [e for e in path.events[:index] if e.kind == 'test']
-                text = ast.unparse(value)
-                if isinstance(event['value'], ast.Constant):
-                    ok = float(event['value'].value) == 1.0 and bool(guard) and \
-                        _is_overload_test(guard[0], tfn) and guard[0]['value'] is False
-                    check.instance('A', 'scale:uncongested=1', ok, event.where,
-                                   'scale is 1 when the demand does not exceed the '
-                                   'throughput', path=rules.path_lines(path, index))
+            if event.kind == 'store' and event['path'] == scale:
+                value = rules.value_expr(path, index, event['value'])
+                guards = [e for i, e in enumerate(path.events[:index]) if e.kind == 'test'
+                          and inequality(rules.value_expr(path, i, e.node)) == overload]
+                congested = bool(guards) and guards[-1]['value'] is True
+                relaxed = bool(guards) and guards[-1]['value'] is False
+                if isinstance(value, ast.Constant):
+                    ok = float(value.value) == 1.0 and relaxed
+                    kinds['uncongested=1'] = kinds.get('uncongested=1', True) and ok
                 else:
-                    want = 'self.throughput / sum(self._subscriptions.values())'
-                    ok = equal_algebra(value, want) and bool(guard) and \
-                        _is_overload_test(guard[0], tfn) and guard[0]['value'] is True
-                    check.instance('A', 'scale:congested=throughput/sum', ok, event.where,
-                                   'scale == throughput / sum(all limits) under '
-                                   '`sum > throughput`: %s' % text,
-                                   path=rules.path_lines(path, index))
+                    ok = equal_algebra(
+                        value, 'self.throughput / sum(self._subscriptions.values())') \
+                        and congested
+                    kinds['congested=throughput/sum'] = kinds.get(
+                        'congested=throughput/sum', True) and ok
+    for name in ('uncongested=1', 'congested=throughput/sum'):
+        check.instance('A', 'scale:%s' % name, kinds.get(name) is True,
+                       where_fn(throttle.fn),
+                       'scale is 1 when demand <= throughput, throughput / sum(all limits) '
+                       'under `sum > throughput`: %s' % kinds)
     # UnboundedPipe
     an.cls(UNBOUNDED)
     utransfer = an.callee(UNBOUNDED, 'transfer')
     ufn = utransfer.fn
     uparams = [a.arg for a in ufn.node.args.args]
-    for call in [n for n in ast.walk(ufn.node) if isinstance(n, ast.Call)
-                 and ast.unparse(n.func) == 'suspend']:
-        delay_kw = [kw.value for kw in call.keywords if kw.arg == 'delay']
-        got = _expand(delay_kw[0], ufn) if delay_kw else None
-        want = '%s / %s' % (uparams[1], uparams[2])
-        check.instance('A', 'unbounded:delay=total/limit', got is not None and
-                       equal_algebra(got, want),
-                       '%s:%d' % (ufn.module.relpath, call.lineno),
-                       'delay == total / limit: %s' % (ast.unparse(got) if got else None))
     upaths = an.paths(utransfer)
-    waits = 0
+    verdict, waits = True, 0
     for path in upaths:
-        if path.normal:
-            for event in path.events:
-                if event.kind == 'susp' and is_call_to(event, 'suspend'):
-                    infinite = rules.fact_value(event, ('isnone', uparams[2]))
-                    if infinite is not False:
-                        check.instance('A', 'unbounded:unlimited-no-wait', False,
-                                       event.where, 'an unlimited transfer must not wait')
-                    waits += 1
-    check.instance('A', 'unbounded:paths', waits > 0, where_fn(ufn),
-                   'limited transfers through an unbounded pipe wait total/limit',
-                   analysed=len(upaths))
-    check.stats.update(an.stats())
+        for index, event in enumerate(path.events):
+            if event.kind == 'call' and is_call_to(event, 'suspend') and event.depth == 0:
+                waits += 1
+                kw = [k.value for k in event.node.keywords if k.arg == 'delay']
+                got = rules.value_text(path, index, kw[0]) if kw else None
+                verdict &= got is not None and equal_algebra(
+                    got, '%s / %s' % (uparams[1], uparams[2]))
+                limited = rules.fact_value(event, ('isnone', uparams[2]))
+                if limited is not False:
+                    check.instance('A', 'unbounded:unlimited-no-wait', False, event.where,
+                                   'an unlimited transfer must not wait')
+    check.instance('A', 'unbounded:delay=total/limit', verdict and waits > 0, where_fn(ufn),
+                   'limited transfers through an unbounded pipe wait total / limit '
+                   '(%d sites on paths)' % waits, analysed=len(upaths))
 
 
 def _is_overload_test(event, fn) -> bool:
